@@ -458,6 +458,10 @@ def judge(rr, ctx):
                 break
 
     def V(clause, detail, site=None):
+        # a foreign answer that had reached the host before the victim's
+        # command was written could have been discarded at that moment: not the
+        # arrival-order limitation, so it gets a site of its own
+        stale = "/stale-before-write" if isinstance(site, str) and site.endswith("/stale-before-write") else ""
         if phase["post"] and clause in ("answer-lost", "answer-of-other-command", "wrong-answer",
                                         "framing-error-not-reported"):
             # long after the faults have stopped: recovery is not clean
@@ -466,7 +470,7 @@ def judge(rr, ctx):
                         "framing-error-not-reported"):
             # one defect family per fault history: after this fault the
             # answers reach the wrong command (shifted / lost / swapped)
-            clause, site = "answers-misattributed", "after-" + _family(fkinds)
+            clause, site = "answers-misattributed", "after-" + _family(fkinds) + stale
         elif clause in ("response-type", "query-returned-none", "non-query-returned-value"):
             site = "%s@%s" % (site, "+".join(fkinds) or "no-fault")
         out.append(Violation(PROP, clause, detail, driver=drv, site=site, trigger=fkinds))
@@ -529,15 +533,21 @@ def judge(rr, ctx):
             results = list(rec.responses)
         if hid:
             _check_last_attempt_prefix(V, rr, u, specs)
+        seen = {}
         for spec, result in zip(specs, results):
             cmd = cmds.mk_cmd(spec)
             o = rec.op.get("outs", {}).get("%d:%d" % (spec[0], spec[1]))
+            occ = seen.get((spec[0], spec[1]), 0)
+            seen[(spec[0], spec[1])] = occ + 1
+            when = None
+            if drv == "hasseb":
+                when = (lambda raw, u=u, spec=spec, occ=occ: _hasseb_when(rr, u, spec, raw, occ))
             if serial and u in touched_serial:
                 # the answer may legitimately be lost; it may never be wrong
                 if result is not None and getattr(result, "raw_value", None) is None:
                     _serial_answer_timing(V, rr, u, rec, drv)
                     continue
-            judge_response(V, drv, u, cmd, o, result, False, all_values, serial)
+            judge_response(V, drv, u, cmd, o, result, False, all_values, serial, when=when)
     # ---- quiescent state --------------------------------------------------
     fin = rr.final
     if fin.get("tx_lock"):
@@ -578,6 +588,25 @@ def judge(rr, ctx):
             V("exception-escaped-callback", "%s: %r" % (cx.get("message"), e),
               site=type(e).__name__ if e else None)
     return out
+
+
+def _hasseb_when(rr, u, spec, raw, occurrence):
+    """Had every report carrying the foreign value reached the host before the
+    victim's frame was written (the driver discards what lies around at that
+    moment), or did one arrive afterwards (the hasseb protocol has nothing to
+    match a report to a command with)?"""
+    if raw is None:
+        return "plain"
+    t_write, k = None, 0
+    for s_ in rr.dev.sends:
+        if s_["unit"] == u and (s_.get("bits"), s_.get("value")) == (spec[0], spec[1]):
+            if k <= occurrence:
+                t_write = s_["t_us"]
+            k += 1
+    arr = [t for t, d in rr.dev.delivered if len(d) == 2 and d[0] in (2, 3) and d[1] == raw.as_integer]
+    if t_write is None or not arr:
+        return "unattributed"
+    return "stale-before-write" if all(t < t_write for t in arr) else "arrived-after-write"
 
 
 def _check_last_attempt_prefix(V, rr, u, specs):
